@@ -62,8 +62,7 @@ def roofAlpha (N : Nat) : α :=
   let f : α := dec 44422 10000
   (Transc.cos (f / wl) + Transc.sin (f / wl) - nat 1) / Transc.cos (f / wl)
 
-def roofCore (N Mss : Nat) : M (Core α) :=
-  if N < 2 then throw .assertFailed else pure
+def roofCoreU (N Mss : Nat) : Core α :=
   { σ := RoofState α
     init := { ss := ssInit, i := 0, val1 := nat 0, val2 := nat 0, hp1 := nat 0, hp2 := nat 0 }
     step := fun s v =>
@@ -90,8 +89,7 @@ structure CcState (α : Type) where
   out : List α
   smooth : List α
 
-def ccCore (N : Nat) : M (Core α) :=
-  if N < 6 then throw .assertFailed else pure
+def ccCoreU (N : Nat) : Core α :=
   { σ := CcState α
     init := { vals := [], out := [], smooth := List.replicate N (nat 0) }
     step := fun s v => do
@@ -278,8 +276,7 @@ def rflexCore (N : Nat) : Core α where
   size s := s.q.length
 
 /-! ### PolarizedFractalEfficiency (polarized_fractal_efficiency.rs): two inner views -/
-def pfeCore (N : Nat) (ma : View α) : M (Core α) :=
-  if N < 3 then throw .assertFailed else pure
+def pfeCoreU (N : Nat) (ma : View α) : Core α :=
   { σ := List α × ma.σ × Option α
     init := ([], ma.init, none)
     step := fun s v => do
@@ -364,5 +361,10 @@ def eftCore (N : Nat) (ma : View α) : Core α where
           pure { s with qOut := s.qOut ++ [fish] }
   out s := pure s.qOut.getLast?
   size s := s.q.length + s.qOut.length + ma.size s.ma
+
+/-! ### constructors with their `assert!` -/
+def roofCore (N Mss : Nat) : M (Core α) := if N < 2 then throw .assertFailed else pure (roofCoreU N Mss)
+def ccCore (N : Nat) : M (Core α) := if N < 6 then throw .assertFailed else pure (ccCoreU N)
+def pfeCore (N : Nat) (ma : View α) : M (Core α) := if N < 3 then throw .assertFailed else pure (pfeCoreU N ma)
 
 end SF
